@@ -38,7 +38,7 @@ run_one() { # name prop patch expected
     # which other registered checks notice this change?
     for q in $(python3 -c "import json; print(' '.join(c['property_id'] for c in json.load(open('$VC/MANIFEST.json'))['checks']))"); do
       [ "$q" = "$prop" ] && continue
-      local o2; o2=$(cd "$VC" && VERIF_REPO="$WT" VERIF_HANG_MS=4000 ./check "$q" quick 2>&1); local r2=$?
+      local o2; o2=$(cd "$VC" && VERIF_REPO="$WT" ./check "$q" quick 2>&1); local r2=$?
       if [ $r2 -eq 1 ] && echo "$o2" | grep -q "^VIOLATION property=$q"; then
         local k2; k2=$(echo "$o2" | grep -E "^violation check=" | sed -E 's/^violation check=([^ ]+).*/\1/' | sort -u | head -3 | tr '\n' ',')
         others="$others $q[$k2]"
